@@ -1,0 +1,14 @@
+//go:build verif
+
+package prolog
+
+// VerifSolEvent is an instrumentation point used by an external verification harness: it is called with the
+// name of the step a Solutions' consumer or search goroutine has just taken. It exists only with the build tag
+// "verif" and is nil unless a harness sets it.
+var VerifSolEvent func(s *Solutions, ev string)
+
+func verifSolEvent(s *Solutions, ev string) {
+	if h := VerifSolEvent; h != nil {
+		h(s, ev)
+	}
+}
